@@ -171,6 +171,22 @@ var strClasses = []func(r *rand.Rand) string{
 }
 
 func randString(r *rand.Rand) string {
+	if r.Intn(12) == 0 {
+		// long text (80-400 bytes) of several lines, LF / CRLF / lone CR, otherwise clean
+		var sb strings.Builder
+		eol := []string{"\n", "\r\n", "\r", "\n\r"}[r.Intn(4)]
+		for sb.Len() < 80+r.Intn(320) {
+			for i, n := 0, 3+r.Intn(30); i < n; i++ {
+				sb.WriteByte(byte('a' + r.Intn(26)))
+			}
+			if r.Intn(5) == 0 {
+				sb.WriteString("\n")
+			} else {
+				sb.WriteString(eol)
+			}
+		}
+		return sb.String()
+	}
 	switch r.Intn(4) {
 	case 0: // raw bytes
 		b := make([]byte, r.Intn(40))
